@@ -1,9 +1,9 @@
 package wire
 
 import (
-	"net"
 	commonpb "go.temporal.io/api/common/v1"
 	"google.golang.org/protobuf/reflect/protoreflect"
+	"net"
 )
 
 type protoValue = protoreflect.Value
